@@ -311,7 +311,26 @@ def case_event_splits(p):
     ev = lambda n: ipacc.event_message(ipacc.jbody({"characteristics": [{"aid": 1, "iid": 9, "value": n}]}))  # noqa: E731
     plain1 = ipacc.restyle(ev(1), style) if style else ev(1)
     nrun = 0
-    for k in range(1, len(plain1)):
+    # the accessory's session layer as a byte stream: blocks cut without regard to message boundaries, so the tail of one event shares its block
+    # with the events queued right behind it
+    plain_all = plain1 + (ipacc.restyle(ev(2), style) if style else ev(2)) + (ipacc.restyle(ev(3), style) if style else ev(3))
+    for sizes in [[k, 1024] for k in range(1, len(plain1) + 1, 1 if not p.get("coarse") else 3)] + [[k] for k in (1, 2, 3, 5, 16, 31, 64, 100)]:
+        h = H(dict(alphabet=[], seed=p.get("seed", 0)))
+        try:
+            cur = h._cur()
+            for f in cur.session.framer.seal_frames(plain_all, sizes):
+                if h._cur() is None:
+                    break
+                h._cur().send(f)
+                h.loop.run_until_idle()
+            got = [(key, v.get("value")) for e in h.logs["L1"] for key, v in e.items()]
+            nrun += 1
+            if got != [((1, 9), 1), ((1, 9), 2), ((1, 9), 3)] or not h.pairing.is_connected or h.secure_connections != 1:
+                out.append(("event-lost-or-connection-dropped-when-blocks-straddle-messages", {"style": style, "block_sizes": sizes, "got": got, "connected": bool(h.pairing.is_connected)}))
+                break
+        finally:
+            h.close()
+    for k in range(1, len(plain1)) if not out else ():
         for mode in ("one-read", "two-reads"):
             h = H(dict(alphabet=[], seed=p.get("seed", 0)))
             try:
@@ -341,7 +360,7 @@ def case_event_splits(p):
     return out
 
 
-COAP_EV = ["ev", "ev2", "replay", "junk", "raiser"]
+COAP_EV = ["ev", "ev2", "ev-novalue", "ev+novalue", "replay", "junk", "raiser"]  # -novalue: an entry that is only its header (the accessory reports a change without a value)
 
 
 def case_coap_events(p):
@@ -371,7 +390,18 @@ def case_coap_events(p):
 
                 rig.pairing.dispatcher_connect(bad)
                 continue
-            if sym in ("ev", "ev2"):
+            if sym in ("ev-novalue", "ev+novalue"):
+                items = []
+                if sym == "ev+novalue":
+                    n += 1
+                    items.append((9, coapacc.pack_value(rig.acc.chars[9].format, True)))
+                    expect.append(((1, 9), n))
+                n += 1
+                items.append((10, None))
+                expect.append(((1, 10), n))
+                payload = rig.acc.event(items)
+                sent.append(payload)
+            elif sym in ("ev", "ev2"):
                 items = []
                 for _ in range(2 if sym == "ev2" else 1):
                     n += 1
@@ -460,7 +490,7 @@ def run(ctx):
     ctx.pmap(_work, work)
     import itertools
 
-    hists = [h for n in range(1, (4 if quick else 6) + 1) for h in itertools.product(COAP_EV, repeat=n) if h.count("raiser") <= 1 and any(x in ("ev", "ev2") for x in h)]
+    hists = [h for n in range(1, (4 if quick else 6) + 1) for h in itertools.product(COAP_EV, repeat=n) if h.count("raiser") <= 1 and any(x.startswith("ev") for x in h)]
     ctx.pmap(_work_coap, [hists[i : i + 40] for i in range(0, len(hists), 40)])
     ctx.bounds.update(coap_event_histories=len(hists), coap_event_alphabet=COAP_EV)
     styles = [None, "chunked", "chunked-2", "chunked-lower"] + ([] if quick else ["lower", "upper", "mixed", "lws", "extra-headers", "no-ctype"])
